@@ -1,0 +1,13 @@
+//go:build verif
+
+package uu
+
+// verifRoundTrip exists only for the verification machinery in /verif (build
+// tag verif): it composes the encoder and the decoder so that "decoding the
+// encoding of x gives x back" is one function with one contract, checked
+// against the contracts of AppendEncode and AppendDecode.
+func verifRoundTrip(dst, x []byte) ([]byte, error) {
+	enc := AppendEncode(nil, x)
+	dec, err := AppendDecode(dst, enc)
+	return dec, err
+}
